@@ -131,10 +131,13 @@ HARNESSES = [
          nochecks=["--conversion-check"], weight=20,
          cases=[dict(id="n257", defines={"DR_N": 257}, unwind=258, tier="quick",
                      flags=["--max-field-sensitivity-array-size", "300"]),
-                dict(id="blk_n8", defines={"DR_N": 8, "DR_BLK": None}, unwind=10,
-                     tier="quick", label="bounded(list<=8)", weight=2),
-                dict(id="blk_n16", defines={"DR_N": 16, "DR_BLK": None}, unwind=18,
-                     tier="thorough", label="bounded(list<=16)", weight=2)]),
+                dict(id="n257_wit", defines={"DR_N": 257, "DR_WIT": None},
+                     unwind=258, tier="thorough", timeout=2400,
+                     flags=["--max-field-sensitivity-array-size", "300"]),
+                dict(id="blk_n8", defines={"DR_N": 8, "DR_BLK": None, "DR_WIT": None},
+                     unwind=10, tier="quick", label="bounded(list<=8)", weight=2),
+                dict(id="blk_n16", defines={"DR_N": 16, "DR_BLK": None, "DR_WIT": None},
+                     unwind=18, tier="thorough", label="bounded(list<=16)", weight=2)]),
     dict(name="comp", file="comp.c", label="proved", unwind=12, timeout=300,
          include_dirs=["lib/sqfs/src/comp"],
          cases=[dict(id=c, defines={"COMP_" + c: None}, tier="quick")
